@@ -22,7 +22,8 @@ from vf.props.cache import RecordingMapping
 DEFAULTS = {'size': 256, 'conc': 5, 'bt': 0.05, 'ret': 0.0}
 OPTNAME = {'size': 'max_batch_size', 'conc': 'max_concurrent_batches', 'bt': 'batch_timeout',
            'ret': 'retention_timeout'}
-VALUES = {'size': [1, 2, 3, 5], 'conc': [1, 2, 3], 'bt': [16 * U, 64 * U, 256 * U],
+# batch_timeout=0 is a valid, falsy, non-default value (an incomplete batch is handed over at once)
+VALUES = {'size': [1, 2, 3, 5], 'conc': [1, 2, 3], 'bt': [0.0, 16 * U, 64 * U, 256 * U],
           'ret': [32 * U, 128 * U, 2048 * U]}
 FORMS = ('class', 'deco', 'deco_opts')
 
@@ -38,7 +39,7 @@ def probe_program(opt, eff):
             calls.append({'t': 0.0, 'key': f'k{i}', 'beh': 'val', 'cancel': None, 'how': None})
     elif opt == 'conc':
         C = eff['conc']
-        gap = eff['bt'] * 2
+        gap = max(eff['bt'], 16 * U) * 2
         cfg['bdur'] = (C + 3) * gap * 2
         for i in range(C + 2):
             calls.append({'t': i * gap, 'key': f'k{i}', 'beh': 'val', 'cancel': None, 'how': None})
